@@ -91,14 +91,19 @@ NoSegmentsLeft == <>[](exec = "gone" => (~segments \/ victim = "shm"))
 (***************************************************************************)
 Shapes == {<<1, 1>>, <<1, 2>>, <<2, 1>>}
 Modes  == {"none", "raise", "exit0", "exit1", "kill", "kill_helper_first", "kill_helper_second"}
+\* the same helper deaths on the OTHER host (the one that is to receive a transfer; two-host shapes only)
+RemoteModes == {"kill_remote_helper_first", "kill_remote_helper_second"}
 Places == {<<"t1", "before">>, <<"t1", "between">>, <<"t1", "after">>, <<"t2", "before">>, <<"t2", "after_compute">>}
 Scenarios == {[hosts |-> s[1], workers |-> s[2], mode |-> m, task |-> p[1], point |-> p[2]] :
                  s \in Shapes, m \in Modes \ {"none"}, p \in Places}
              \cup {[hosts |-> s[1], workers |-> s[2], mode |-> "none", task |-> "", point |-> ""] : s \in Shapes}
+             \cup {[hosts |-> 2, workers |-> 1, mode |-> m, task |-> p[1], point |-> p[2]] : m \in RemoteModes, p \in Places}
 \* quick tier: one shape per (mode, place) rotated deterministically
-Rank(sc) == (CHOOSE i \in 1..7 : SetToSeq(Modes)[i] = sc.mode) + (IF sc.task = "" THEN 0 ELSE CHOOSE i \in 1..5 : SetToSeq(Places)[i] = <<sc.task, sc.point>>)
+Rank(sc) == (IF sc.mode \in RemoteModes THEN 0 ELSE CHOOSE i \in 1..7 : SetToSeq(Modes)[i] = sc.mode) + (IF sc.task = "" THEN 0 ELSE CHOOSE i \in 1..5 : SetToSeq(Places)[i] = <<sc.task, sc.point>>)
 ShapeIdx(sc) == CHOOSE i \in 1..3 : SetToSeq(Shapes)[i] = <<sc.hosts, sc.workers>>
-QuickScenarios == {sc \in Scenarios : (Rank(sc) % 3) + 1 = ShapeIdx(sc) /\ sc.point \in {"", "before", "between", "after"}}
+QuickScenarios == {sc \in Scenarios : \/ sc.mode \notin RemoteModes /\ (Rank(sc) % 3) + 1 = ShapeIdx(sc) /\ sc.point \in {"", "before", "between", "after"}
+                                      \/ sc.mode = "kill_remote_helper_second" /\ <<sc.task, sc.point>> \in {<<"t1", "before">>, <<"t1", "after">>, <<"t2", "before">>}
+                                      \/ sc.mode = "kill_remote_helper_first" /\ <<sc.task, sc.point>> = <<"t1", "before">>}
 Generate == IF IOEnv.PASS # "generate" THEN TRUE
             ELSE LET S == IF IOEnv.TIER = "quick" THEN QuickScenarios ELSE Scenarios IN
                  JsonSerialize(IOEnv.CASES_FILE, SetToSeq(S))
